@@ -170,6 +170,10 @@ class Runner:
                     fh.write(json.dumps(jsonable(dict(case=case, what=f['what'], sig=f.get('sig'), detail=f.get('detail')))) + '\n')
         seen = set()
         rdir = os.path.join(OUT_HOME, 'replay', self.pid)
+        if os.path.isdir(rdir):          # replay files always describe the latest run of this check
+            for fn in os.listdir(rdir):
+                if fn.endswith('.json'):
+                    os.remove(os.path.join(rdir, fn))
         nviol = 0
         for case, f in violations:
             key = digest([case, f['what'], f.get('sig')])
